@@ -13,6 +13,8 @@ On every path:
     call and no processor sees an unresolved reference;
   * a non-None return value replaces the object in its containing attribute
     (the own-rule processor's value dominates the abstract rule's).
+Second family: every subset of the rules of a recursive grammar has processors
+(the other rules none), both orders of the recursive attribute — same clauses.
 """
 import re
 
@@ -102,6 +104,149 @@ def judge(obs):
     return problems
 
 
+# ---------------------------------------------------------------- which rules have processors
+# every subset of the rules of a recursive grammar gets recording processors (the others none), for both
+# orders of the recursive and the non-recursive containment attribute: the registered ones run exactly once
+# per object, children first, whatever else is (not) registered
+PS_RULES = ['Model', 'Group', 'Sub', 'Member', 'Item', 'Note']
+PS_TREE = [('g1', [('g11', [], [('Item', 'i111'), ('Note', 'n11', 'x')]), ('g12', [('g121', [], [('Item', 'i1211')])], [])],
+            [('Item', 'i1'), ('Note', 'n1', None)]),
+           ('g2', [], [('Note', 'n2', 'y')])]
+
+
+def ps_grammar(subs_first):
+    # the containment cycle has length two: Group -> Sub -> Group
+    body = "sub=Sub? members*=Member" if subs_first else "members*=Member sub=Sub?"
+    return ("Model: groups+=Group;\nGroup: 'group' name=ID '{' %s '}';\nSub: 'sub' '{' groups+=Group '}';\n"
+            "Member: Item | Note;\n"
+            "Item: 'item' name=ID;\nNote: 'note' name=ID ('[' inner=Item ']')?;" % body)
+
+
+def ps_text(subs_first):
+    def member(m):
+        if m[0] == 'Item':
+            return 'item %s' % m[1]
+        return 'note %s%s' % (m[1], ' [ item %s ]' % m[2] if m[2] else '')
+
+    def group(g):
+        name, subs, members = g
+        parts = (['sub { %s }' % ' '.join(group(x) for x in subs)] if subs else []), [member(m) for m in members]
+        if not subs_first:
+            parts = parts[::-1]
+        return 'group %s { %s }' % (name, ' '.join(parts[0] + parts[1]))
+    return ' '.join(group(g) for g in PS_TREE)
+
+
+def ps_expected(subs_first, registered):
+    out = []
+
+    def member(m):
+        if m[0] == 'Note' and m[2]:
+            out.append(('Item', m[2]))
+        out.append((m[0], m[1]))
+        out.append(('Member', m[1]))
+
+    def group(g):
+        name, subs, members = g
+        def sub():
+            if subs:
+                for x in subs:
+                    group(x)
+                out.append(('Sub', None))
+        steps = [sub, lambda: [member(m) for m in members]]
+        for st in (steps if subs_first else steps[::-1]):
+            st()
+        out.append(('Group', name))
+    for g in PS_TREE:
+        group(g)
+    out.append(('Model', None))
+    return [e for e in out if e[0] in registered]
+
+
+def processor_subsets(item):
+    import z3
+    from ..symx import Ctx
+    subs_first, = item
+    from textx import metamodel_from_str
+    ctx = Ctx(10000, max_paths=5000, free_selectors=True)
+
+    def path(c):
+        registered = [r for r in PS_RULES if c.branch(z3.Bool('processor_on_%s' % r))]
+        mm = metamodel_from_str(ps_grammar(subs_first))
+        log = []
+
+        def proc(rule):
+            def p(obj):
+                log.append((rule, getattr(obj, 'name', None)))
+                if rule == 'Item':
+                    return 'item:%s' % obj.name        # replaces the object
+                return None
+            return p
+        mm.register_obj_processors({r: proc(r) for r in registered})
+        try:
+            m = mm.model_from_str(ps_text(subs_first))
+        except Exception as e:  # noqa
+            return (registered, ['load raised %s: %s' % (type(e).__name__, e)])
+        problems = []
+        exp = ps_expected(subs_first, registered)
+        if log != exp:
+            problems.append('processor calls %s, expected %s' % (log, exp))
+        # replacements by the Item processor
+
+        def items_of(g):
+            out = [x for x in g.members if isinstance(x, str) or type(x).__name__ == 'Item']
+            out += [x.inner for x in g.members if type(x).__name__ == 'Note' and x.inner is not None]
+            for s_ in (g.sub.groups if g.sub is not None else []):
+                out += items_of(s_)
+            return out
+        its = [x for g in m.groups for x in items_of(g)]
+        if 'Item' in registered and not all(isinstance(x, str) and x.startswith('item:') for x in its):
+            problems.append('Item objects not replaced by the value their processor returned: %s' % (
+                [x if isinstance(x, str) else x.name for x in its],))
+        if 'Item' not in registered and any(isinstance(x, str) for x in its):
+            problems.append('Item objects replaced although no Item processor is registered')
+        return (registered, problems)
+    outs = ctx.explore(path)
+    return {'subs_first': subs_first, 'paths': ctx.paths, 'bad': [(r, p) for r, p in outs if p][:3]}
+
+
+def imported_grammar_scenario():
+    """the grammar is spread over files (main.tx imports a.tx, a.tx imports b.tx): objects of rules that
+    the main grammar sees only through a transitive import have processors like all others"""
+    import os
+    import shutil
+    import tempfile
+    from textx import metamodel_from_file
+    files = {'main.tx': "import a\nModel: xs+=A ys*=Y;\nY: 'y' name=ID a=A?;",
+             'a.tx': "import b\nA: 'a' name=ID b=B;",
+             'b.tx': "B: 'b' name=ID cs+=C;\nC: 'c' name=ID;"}
+    tmp = tempfile.mkdtemp(prefix='c13g_')
+    try:
+        for fn, t in files.items():
+            with open(os.path.join(tmp, fn), 'w') as f:
+                f.write(t)
+        mm = metamodel_from_file(os.path.join(tmp, 'main.tx'))
+        log = []
+        mm.register_obj_processors({r: (lambda o, r=r: log.append((r, getattr(o, 'name', None))))
+                                    for r in ('Model', 'A', 'B', 'C', 'Y')})
+        mm.model_from_str('a a1 b b1 c c1 c c2 a a2 b b2 c c3 y y1 a a3 b b3 c c4')
+        exp = [('C', 'c1'), ('C', 'c2'), ('B', 'b1'), ('A', 'a1'), ('C', 'c3'), ('B', 'b2'), ('A', 'a2'),
+               ('C', 'c4'), ('B', 'b3'), ('A', 'a3'), ('Y', 'y1'), ('Model', None)]
+        if log != exp:
+            return ['grammar in three files (main imports a imports b): processor calls %s, expected %s' % (log, exp)]
+        return []
+    finally:
+        shutil.rmtree(tmp, ignore_errors=True)
+
+
+def replay_subset(subs_first, registered):
+    res = processor_subsets((subs_first,))
+    for reg, probs in res['bad']:
+        if sorted(reg) == sorted(registered):
+            return True, probs[:2]
+    return bool(res['bad']), res['bad'][:1]
+
+
 def explore(item):
     r = LC.explore(item)
     bad = []
@@ -137,6 +282,21 @@ def main():
             chk.violation('%s/%s with %d replacement(s): %s' % (b['case'], b['variant'], b['replaced'],
                                                               b['problems']), {'item': r['item'], 'detail': b})
         chk.sample({'case': r['item'][0], 'variant': r['item'][1], 'paths': r['paths'], 'failing': r['nbad']})
+    for (st, r, secs) in pmap(processor_subsets, [(True,), (False,)]):
+        if st != 'ok':
+            chk.harness_error(r)
+            continue
+        paths += r['paths']
+        for reg, probs in r['bad'][:1]:
+            chk.cov['traces_validated_against_impl'] += 1
+            chk.violation('processors registered on %s only (recursive attribute %s): %s' % (
+                reg, 'first' if r['subs_first'] else 'last', probs[:2]),
+                {'processor_subset': reg, 'subs_first': r['subs_first']})
+    for pr in imported_grammar_scenario():
+        chk.cov['traces_validated_against_impl'] += 1
+        chk.violation(pr, {'imported_grammar': True})
+    chk.cov['bounds']['imported_grammar'] = 'one grammar in three files with a transitive import, processors on every rule (concrete)'
+    chk.cov['bounds']['processor_subsets'] = 'every subset of %s x 2 attribute orders on one recursive model' % PS_RULES
     chk.cov['paths_explored'] = paths
     chk.cov['evaluations'] = paths
     chk.cov['distinct_nontrivial'] = paths
@@ -145,5 +305,10 @@ def main():
 
 
 def replay(data):
+    if data.get('imported_grammar'):
+        pr = imported_grammar_scenario()
+        return bool(pr), pr
+    if 'processor_subset' in data:
+        return replay_subset(data['subs_first'], data['processor_subset'])
     r = explore(tuple(data['item']))
     return r['nbad'] > 0, r['bad'][:1]
